@@ -45,9 +45,10 @@ impl Def {
         match self {
             Def::Char { t, .. } => t.clone(),
             Def::Range { lo, t, .. } => {
+                // the offset is added to the last unit only, modulo 2^16 (a unit has 16 bits)
                 let mut v = t.clone();
                 let last = v.last_mut().expect("target has at least one unit");
-                *last = (*last as u32 + (code - lo)) as u16;
+                *last = last.wrapping_add((code - lo) as u16);
                 v
             }
             Def::Array { lo, ts, .. } => ts[(code - lo) as usize].clone(),
@@ -69,6 +70,32 @@ impl Def {
             Def::Range { lo, hi, t, .. } => !t.is_empty() && (*t.last().unwrap() as u32 & 0xff) + (hi - lo) <= 0xff,
             Def::Array { lo, hi, ts, .. } => ts.len() as u64 == (*hi as u64 - *lo as u64 + 1) && ts.iter().all(|t| !t.is_empty()),
         }
+    }
+    /// `well_formed` without the ISO 32000-1 9.10.3 clause about the low byte: lo <= hi, the code fits
+    /// its length, targets of 1..=256 units (512 bytes, the limit of a CMap string), an array has
+    /// exactly hi-lo+1 elements. The property's own words ("adds the offset to the last UTF-16 unit")
+    /// give such a range a value; the parts that use this say so in their assumptions.
+    pub fn well_formed_lenient(&self) -> bool {
+        let l = self.len();
+        if !(1..=4).contains(&l) || self.lo() > self.hi() {
+            return false;
+        }
+        if l < 4 && self.hi() >= 1u32 << (8 * l as u32) {
+            return false;
+        }
+        let ok = |t: &Units| !t.is_empty() && t.len() <= 256;
+        match self {
+            Def::Char { t, .. } | Def::Range { t, .. } => ok(t),
+            Def::Array { lo, hi, ts, .. } => ts.len() as u64 == (*hi as u64 - *lo as u64 + 1) && ts.iter().all(ok),
+        }
+    }
+    /// an incrementing range whose offset carries out of the low byte of the last unit
+    pub fn carries_low_byte(&self) -> bool {
+        matches!(self, Def::Range { lo, hi, t, .. } if !t.is_empty() && (*t.last().unwrap() as u64 & 0xff) + (*hi as u64 - *lo as u64) > 0xff)
+    }
+    /// the offset of `code` takes the last unit of an incrementing range past FFFF (it wraps to 0000..)
+    pub fn wraps_at(&self, code: u32) -> bool {
+        matches!(self, Def::Range { lo, t, .. } if !t.is_empty() && *t.last().unwrap() as u64 + (code - lo) as u64 > 0xFFFF)
     }
     pub fn overlaps_or_touches(&self, other: &Def) -> bool {
         self.len() == other.len()
@@ -123,8 +150,9 @@ pub fn lookup(defs: &[Def], len: u8, code: u32) -> Option<Units> {
     winner(defs, len, code).map(|i| defs[i].value(code))
 }
 
-/// UTF-16 decoding: a high surrogate followed by a low surrogate is one character; a lone surrogate
-/// is U+FFFD (never produced by well-formed targets; kept so the function is total).
+/// UTF-16 decoding of the units of the WHOLE input: a high surrogate followed by a low surrogate is one
+/// character; every surrogate without a partner is U+FFFD (an assumption where the statement is silent:
+/// see `Tok` / `fixed_pattern` for what is demanded when an implementation differs there).
 pub fn utf16_to_string(units: &[u16]) -> String {
     let mut out = String::new();
     let mut i = 0;
@@ -143,6 +171,78 @@ pub fn utf16_to_string(units: &[u16]) -> String {
         }
     }
     out
+}
+
+/// What the property's statement fixes of the decoded text, whatever an implementation makes of an
+/// unpaired surrogate: `Ch` = exactly this character, `Any` = zero or more characters of any kind.
+#[derive(Clone, Copy, Debug, PartialEq, Eq)]
+pub enum Tok {
+    Ch(char),
+    Any,
+}
+
+/// The pattern of one value: surrogate pairs and other units are fixed characters; a surrogate that has
+/// no partner INSIDE THE VALUE OF ITS OWN CODE is `Any` (the statement says that surrogate pairs become
+/// one character; it says nothing about a surrogate without a partner, nor about a high surrogate that
+/// ends one code's value and a low surrogate that starts the next one's).
+pub fn value_pattern(units: &[u16], out: &mut Vec<Tok>) {
+    let mut i = 0;
+    while i < units.len() {
+        let u = units[i] as u32;
+        if (0xD800..0xDC00).contains(&u) && i + 1 < units.len() && (0xDC00..0xE000).contains(&(units[i + 1] as u32)) {
+            out.push(Tok::Ch(char::from_u32(0x10000 + ((u - 0xD800) << 10) + (units[i + 1] as u32 - 0xDC00)).unwrap()));
+            i += 2;
+        } else if (0xD800..0xE000).contains(&u) {
+            out.push(Tok::Any);
+            i += 1;
+        } else {
+            out.push(Tok::Ch(char::from_u32(u).unwrap()));
+            i += 1;
+        }
+    }
+}
+
+pub fn fixed_pattern(defs: &[Def], input: &[(u8, u32)]) -> Option<Vec<Tok>> {
+    let mut p = vec![];
+    for &(len, code) in input {
+        value_pattern(&lookup(defs, len, code)?, &mut p);
+    }
+    Some(p)
+}
+
+pub fn has_unpaired(units: &[u16]) -> bool {
+    let mut p = vec![];
+    value_pattern(units, &mut p);
+    p.contains(&Tok::Any)
+}
+
+/// Glob match: every `Ch` in order, `Any` absorbing zero or more characters.
+pub fn pattern_matches(p: &[Tok], s: &str) -> bool {
+    let cs: Vec<char> = s.chars().collect();
+    // reach[j] = the tokens read so far can produce cs[..j]
+    let mut reach = vec![false; cs.len() + 1];
+    reach[0] = true;
+    for t in p {
+        let mut next = vec![false; cs.len() + 1];
+        match t {
+            Tok::Ch(c) => {
+                for j in 0..cs.len() {
+                    if reach[j] && cs[j] == *c {
+                        next[j + 1] = true;
+                    }
+                }
+            }
+            Tok::Any => {
+                let mut on = false;
+                for j in 0..=cs.len() {
+                    on |= reach[j];
+                    next[j] = on;
+                }
+            }
+        }
+        reach = next;
+    }
+    reach[cs.len()]
 }
 
 /// Text the CMap defines for a string of mapped codes; None if a code is unmapped (outside the domain).
@@ -839,6 +939,21 @@ mod tests {
         assert_eq!(lookup(&defs, 1, 0x11), None);
         assert_eq!(expected_text(&defs, &[(2, 0x12), (2, 0x11)]).unwrap(), "\u{1F602}A");
         assert_eq!(utf16_to_string(&[0xD83D, 0x41]), "\u{FFFD}A");
+        // last-unit arithmetic: modulo 2^16, never into the unit before
+        let r = Def::Range { len: 2, lo: 0x10, hi: 0x17, t: vec![0xD83D, 0xDFFC] };
+        assert!(!r.well_formed() && r.well_formed_lenient() && r.carries_low_byte() && !r.wraps_at(0x17));
+        assert_eq!(r.value(0x14), vec![0xD83D, 0xE000]);
+        assert_eq!(utf16_to_string(&r.value(0x14)), "\u{FFFD}\u{E000}");
+        let w = Def::Range { len: 4, lo: 0, hi: u32::MAX, t: vec![0x0041, 0xFFFE] };
+        assert_eq!(w.value(2), vec![0x0041, 0x0000]);
+        assert_eq!(w.value(u32::MAX), vec![0x0041, 0xFFFD]);
+        assert!(w.wraps_at(2) && !w.wraps_at(1));
+        let p = fixed_pattern(&[r.clone()], &[(2, 0x13), (2, 0x14)]).unwrap();
+        assert_eq!(p, vec![Tok::Ch('\u{1F7FF}'), Tok::Any, Tok::Ch('\u{E000}')]);
+        assert!(pattern_matches(&p, "\u{1F7FF}\u{FFFD}\u{E000}") && pattern_matches(&p, "\u{1F7FF}\u{E000}") && pattern_matches(&p, "\u{1F7FF}xy\u{E000}"));
+        assert!(!pattern_matches(&p, "\u{1F7FF}\u{1F800}") && !pattern_matches(&p, "\u{1F7FF}\u{FFFD}") && !pattern_matches(&p, "\u{FFFD}\u{E000}"));
+        assert!(pattern_matches(&[], "") && !pattern_matches(&[], "a") && pattern_matches(&[Tok::Any], "") && pattern_matches(&[Tok::Any, Tok::Any], "abc"));
+        assert!(has_unpaired(&[0xDC00, 0xD800]) && !has_unpaired(&[0xD800, 0xDC00, 0x41]));
     }
 
     #[test]
